@@ -335,9 +335,10 @@ AtomicMove<SlotType, BUFFER_SIZE> {
                 match self.dequeuer_head.compare_exchange_weak(slot_id.overflowing_add(1).0, slot_id, Relaxed, Relaxed) {
                     Ok(_) => {
                         if !report_empty_fn() {
-                            // only give up if the queue is still empty: an element published while we were receding
-                            // might have been left for us by a consumer that got ahead of us and has already given up
-                            if self.tail.load(Relaxed).overflowing_sub(slot_id).0 as i32 <= 0 {
+                            // only give up if the queue is really empty: elements published at lower positions may still be claimed
+                            // by slower consumers that got ahead of us and are about to give them up (or have done so already)
+                            // -- in which case we try again until they are taken, by them or by us
+                            if self.tail.load(Relaxed).overflowing_sub(self.head.load(Relaxed)).0 as i32 <= 0 {
                                 return None;
                             }
                             slot_id = self.dequeuer_head.fetch_add(1, Relaxed);
